@@ -148,6 +148,42 @@ def nested(pid, depth, seed, sched):
     return Program(pid, text, "    " + "\n    ".join(L), desc=dict(macro="nested spawn macros", depth=depth, schedule="all early" if sched == 1 else "all late"), group="nested", role=dict(kind="join_spawn"), solo=True, unwind=64, weight=6)
 
 
+def shared_site(pid, macro, variant):
+    """ONE textual call site executed more than once, by differently named callers: the name of every thread is derived from the caller of
+    THAT evaluation (`sequence`: a function holding the macro is called from a caller named alpha, then beta, then from an unnamed one;
+    `nested`: the same function is called from the two branch threads of an outer join_spawn!, fixed schedules)"""
+    is_async, is_try, is_spawn = KINDS[macro]
+    fn = "site_%s" % pid
+    val = (lambda x: "mo(true, %s)" % x) if is_try else (lambda x: x)
+    rty = "Option<(u8, u8)>" if is_try else "(u8, u8)"
+    items = ("fn %s(x: u8, e: usize, n0: &'static [u8], n1: &'static [u8]) -> %s { %s! { (move || { eva(e, t_name_is(n0) as u8); %s })(), (move || { eva(e + 1, t_name_is(n1) as u8); %s })() } }"
+             % (fn, rty, macro, val("x"), val("x ^ 1")))
+    un = (lambda e: "%s.unwrap()" % e) if is_try else (lambda e: e)
+    L = ["let x = u(); let y = u(); let z = u();"]
+    msg = lambda t: "\"C08[%s]: %s\"" % (pid, t)
+    if variant == "sequence":
+        L.append("t_set_name(\"alpha\"); let a = %s;" % un("%s(x, 1, b\"alpha_join_0\", b\"alpha_join_1\")" % fn))
+        L.append("t_set_name(\"beta\"); let b_ = %s;" % un("%s(y, 3, b\"beta_join_0\", b\"beta_join_1\")" % fn))
+        L.append("std::thread::set_current_name(None); let c = %s;" % un("%s(z, 5, b\"join_0\", b\"join_1\")" % fn))
+        L.append("vassert!(a == (x, x ^ 1) && b_ == (y, y ^ 1) && c == (z, z ^ 1), %s);" % msg("values"))
+        evs = [1, 2, 3, 4, 5, 6]
+        text = "%s! { .. } inside fn %s, called from callers named alpha, beta and from an unnamed caller" % (macro, fn)
+        L.append("vcover!(t_late() > 0 && t_early() > 0, \"some thread runs early and some late\");")
+    else:
+        sched = 1 if variant == "nested-early" else 2
+        L.insert(0, "t_set_name(\"main\"); t_schedule(%d);" % sched)
+        L.append("let r = join_spawn! { (move || %s)(), (move || %s)() };" % (un("%s(x, 1, b\"main_join_0_join_0\", b\"main_join_0_join_1\")" % fn), un("%s(y, 3, b\"main_join_1_join_0\", b\"main_join_1_join_1\")" % fn)))
+        L.append("vassert!(r == ((x, x ^ 1), (y, y ^ 1)), %s);" % msg("values"))
+        evs = [1, 2, 3, 4]
+        text = "join_spawn! { (move || %s(..))(), (move || %s(..))() } with %s! { .. } inside fn %s" % (fn, fn, macro, fn)
+        L.append("vcover!(%s, \"threads ran\");" % ("t_early() > 0 && t_late() == 0" if sched == 1 else "t_late() > 0 && t_early() == 0"))
+    for e in evs:
+        L.append("vassert!(cnt(%d) == 1 && arg(%d) == 1, %s);" % (e, e, msg("every evaluation of a call site names its threads after the caller of THAT evaluation: <caller's name>_join_<branch index>")))
+    L.append("vassert!(t_spawned() == t_joined() && t_live() == 0, %s);" % msg("all threads joined"))
+    return Program(pid, text + "\n    " + items, "    " + "\n    ".join(L), items=items, desc=dict(macro=macro, variant=variant, call_site="one function body, evaluated 2-3 times by differently named callers"),
+                   group="shared-site", role=dict(kind=macro), solo=True, unwind=64, weight=6)
+
+
 def wide(pid, nbr):
     """two-digit branch indices"""
     L = ["t_set_name(\"w\");", "let x = u();"]
@@ -183,6 +219,11 @@ def programs(tier, seed):
             ps.append(nested("p%04d" % i, depth, seed, sched))
     i += 1
     ps.append(wide("p%04d" % i, 12))
+    for macro, variant in (("join_spawn", "sequence"), ("try_spawn", "nested-early"), ("try_join_spawn", "sequence"), ("spawn", "nested-late")):
+        i += 1
+        if tier == "quick" and i % 2 == (seed % 2) and variant != "sequence":
+            continue
+        ps.append(shared_site("p%04d" % i, macro, variant))
     return ps
 
 
